@@ -133,12 +133,18 @@ func c11Cells(yield func(c11Cell)) {
 			}
 			for _, k := range append(append([]string{}, prims...), model.KSlice, model.KStruct) {
 				yield(c11Cell{Label: "ptr:" + k + ".not_nil", Kind: k, Elem: model.KString, What: "not_nil", Subject: model.Nil(), Mode: mode, Lang: lang})
+				yield(c11Cell{Label: "ptrptr:" + k + ".not_nil", Kind: k, Elem: model.KString, What: "not_nil2", Subject: model.Nil(), Mode: mode, Lang: lang})
 			}
 		}
 		junk := map[string]model.Val{model.KInt: model.Str("abc"), model.KInt32: model.Str("abc"), model.KInt64: model.Str("abc"), model.KFloat32: model.Str("abc"), model.KFloat64: model.Str("abc"),
 			model.KBool: model.Str("maybe"), model.KTime: model.Str("yesterday"), model.KStruct: model.Str("junk"), model.KCustom: model.F64(1.5)}
 		for _, k := range model.SortedKeys(junk) {
 			yield(c11Cell{Label: k + ".coerce", Kind: k, What: "coerce", Subject: junk[k], Mode: "parse", Lang: lang})
+		}
+		// Preprocess in front of a pointer / primitive schema: type mismatch and function error
+		for _, inner := range []string{"string", "ptr"} {
+			yield(c11Cell{Label: "preprocess(" + inner + ").type-mismatch", Kind: "pre:" + inner, What: "pre-coerce", Subject: model.Int(7), Mode: "parse", Lang: lang})
+			yield(c11Cell{Label: "preprocess(" + inner + ").error", Kind: "pre:" + inner, What: "pre-error", Subject: model.Str("x"), Mode: "parse", Lang: lang})
 		}
 		for _, body := range []string{`{"a":`, `[1]`, `null`, `"s"`, ``} {
 			yield(c11Cell{Label: "zjson.invalid_json", Kind: "frontend", What: "invalid_json", Subject: model.Str(body), Mode: "parse", Lang: lang})
@@ -187,6 +193,26 @@ func propC11Cell(c c11Cell) hh.Verdict {
 			wantCode = c.What
 			return
 		}
+		if strings.HasPrefix(c.Kind, "pre:") {
+			// struct{ f: Preprocess(fn, String | Ptr(String)) } with an input of the wrong type / a failing function
+			leaf := &model.Node{Kind: model.KString}
+			node = leaf
+			elem := leaf
+			if c.Kind == "pre:ptr" {
+				elem = &model.Node{Kind: model.KPtr, Elem: leaf}
+			}
+			fn := "trim"
+			if c.What == "pre-error" {
+				fn = "error"
+			}
+			root := &model.Node{Kind: model.KStruct, Fields: []model.Field{{Key: "f", Node: &model.Node{Kind: model.KPre, PreFn: fn, Elem: elem}}}}
+			root.Number()
+			schema, typ := model.Build(root, env)
+			in := model.Map(model.KV{K: "f", V: c.Subject})
+			res = model.RunWith(schema, env, model.Exec{Mode: "parse"}, in.Go(), reflect.New(typ), opts)
+			wantCode = map[string]string{"pre-coerce": "coerce", "pre-error": ""}[c.What]
+			return
+		}
 		n := &model.Node{Kind: c.Kind}
 		switch c.Kind {
 		case model.KSlice:
@@ -211,6 +237,9 @@ func propC11Cell(c c11Cell) hh.Verdict {
 			wantCode = "required"
 		case "not_nil":
 			n = &model.Node{Kind: model.KPtr, Req: true, Elem: n}
+			wantCode = "not_nil"
+		case "not_nil2": // pointer to pointer, the outer one NotNil
+			n = &model.Node{Kind: model.KPtr, Req: true, Elem: &model.Node{Kind: model.KPtr, Elem: n}}
 			wantCode = "not_nil"
 		case "coerce":
 			wantCode = "coerce"
@@ -274,6 +303,10 @@ func propC11Cell(c c11Cell) hh.Verdict {
 		}()
 		if model.CanonJSON(rv) != model.CanonJSON(wantV) {
 			return fail("value reference holds %s, the offending value is %s", model.CanonJSON(rv), model.CanonJSON(wantV))
+		}
+	case "pre-coerce", "pre-error":
+		if is.Err == nil {
+			return fail("preprocess issue without the underlying error")
 		}
 	case "coerce":
 		if fmt.Sprint(is.Value) != fmt.Sprint(c.Subject.Go()) {
